@@ -163,7 +163,11 @@ def check(ctx):
                "missing values are removed from a group only under drop_na" if ok else
                "the kernel filters missing values unconditionally (or never)", clause="with missing values propagating when it is not")
     hn = repo.fn(f"{A.AGG}.handle_na")
+    from ..forms import value_cases
+    hx, hd = hn.params[0], hn.params[1]
+    hc = {(norm(leaf), tuple(sorted(t for k, t in f if t == hd and k in ("T", "F")) or ()), tuple(sorted(k for k, t in f if t == hd)))
+          for _, leaf, f in value_cases(hn, "return")}
     rets = [s for s in body_nodes(hn.node) if isinstance(s, ast.Return)]
-    ok = len(rets) == 1 and norm(rets[0].value) == "x[~x.is_na()] if drop_na else x"
+    ok = hc == {(f"{hx}[~{hx}.is_na()]", (hd,), ("T",)), (hx, (hd,), ("F",))}
     ctx.ob("SIB-7", hn, norm(rets[0].value) if rets else "handle_na", rets[0] if rets else hn.node, ok,
            "handle_na removes exactly the missing elements, only under drop_na" if ok else "handle_na changed", nontrivial=False)
